@@ -855,7 +855,7 @@ func ruleTypedNil(rule string) func(p *Prog, r *Result) {
 					if !ok || !isContainer(mi.X.Type()) {
 						continue
 					}
-					if formattingOnly(mi) {
+					if formattingOnly(mi) || failureOnly(mi) {
 						diag++
 						continue
 					}
@@ -920,3 +920,40 @@ func valueLabel(v ssa.Value) string {
 }
 
 var _ = sort.Strings
+
+// failureOnly: the boxed value is only ever returned next to a non-nil error (the "nil, err" of a function
+// whose result type is `any` but whose local is a typed container): callers that check the error never see it.
+func failureOnly(mi *ssa.MakeInterface) bool {
+	refs := mi.Referrers()
+	if refs == nil || len(*refs) == 0 {
+		return false
+	}
+	for _, ref := range *refs {
+		switch r := ref.(type) {
+		case *ssa.DebugRef:
+		case *ssa.Return:
+			if !failureReturn(r) {
+				return false
+			}
+		case *ssa.Store:
+			// result cell of a function with defer / range-over-func: the error cell assigned in the same block decides
+			al, ok := r.Addr.(*ssa.Alloc)
+			if !ok {
+				return false
+			}
+			failed := false
+			for _, in := range r.Block().Instrs {
+				if es, ok := in.(*ssa.Store); ok && es != r && nnIsErrorType(es.Val.Type()) && errNonNilAt(es.Val, r.Block()) {
+					failed = true
+				}
+			}
+			_ = al
+			if !failed {
+				return false
+			}
+		default:
+			return false
+		}
+	}
+	return true
+}
